@@ -2,7 +2,7 @@
 from props import parser_scope as psc, grammar
 
 KEYS = []
-MODULES = ['contracts.common', 'contracts.names', 'contracts.parser']
+MODULES = ['contracts.common', 'contracts.names', 'contracts.pybind', 'contracts.parser']
 
 
 def replay(obj):
